@@ -1519,25 +1519,18 @@ class TT():
 
             result = torchtt._extras.reshape(self, shape_new, eps, rmax)
         else:
-            for core in self.cores:
-                if int(math.log(core.shape[1], mode_size)) > 1:
-                    Nnew = [core.shape[0]*mode_size]+[mode_size] * \
-                        (int(
-                            math.log(core.shape[1], mode_size))-2)+[core.shape[2]*mode_size]
-                    try:
-                        core = tn.reshape(core, Nnew)
-                    except:
-                        raise ShapeMismatch('Reshaping error: check if the dimensions care powers of the desired mode size:\r\ncore size '+str(
-                            list(core.shape))+' cannot be reshaped to '+str(Nnew))
-                    cores, _ = to_tt(core, Nnew, eps, rmax, is_sparse=False)
-                    cores_new.append(tn.reshape(
-                        cores[0], [-1, mode_size, cores[0].shape[-1]]))
-                    cores_new += cores[1:-1]
-                    cores_new.append(tn.reshape(
-                        cores[-1], [cores[-1].shape[0], mode_size, -1]))
+            # same route as for TT matrices: reshape() orthogonalises the train first, so that the truncation of every
+            # split is relative to the whole tensor (splitting the raw cores one by one is not)
+            shape_new = []
+            for i in range(len(self.__N)):
+                if self.__N[i] == 1:
+                    shape_new += [1]
+                elif self.__N[i] == mode_size**int(round(math.log(self.__N[i], mode_size))):
+                    shape_new += [mode_size] * int(round(math.log(self.__N[i], mode_size)))
                 else:
-                    cores_new.append(core)
-            result = TT(cores_new)
+                    raise ShapeMismatch('Reshaping error: check if the dimensions are powers of the desired mode size:\r\ncore size '+str(
+                        list(self.cores[i].shape))+' cannot be reshaped.')
+            result = torchtt._extras.reshape(self, shape_new, eps, rmax)
 
         return result
 
